@@ -16,7 +16,7 @@ Module for utilities.
 import sys
 import copy as cp
 from typing import Any, List, Optional, Text
-from threading import Timer
+from threading import Lock, Timer
 from time import time
 from datetime import timedelta
 
@@ -236,6 +236,8 @@ class ProgressBar(BaseProgress):
     def __init__(self, max_value, title = None):
         """Create a ProgressBar object. """
         self._timer = None
+        self._lock = Lock() # guards self._timer and self._closed
+        self._closed = False
         self._start_time = time()
         self._file = sys.stdout
         self.max_value = max_value
@@ -275,7 +277,9 @@ class ProgressBar(BaseProgress):
 
     def exit(self):
         """Context exit. """
-        self._timer.cancel()
+        with self._lock:
+            self._closed = True
+            self._timer.cancel()
         self._print_status()
         delta_t = time() - self._start_time
         print("\nElapsed time: {:.1f}s".format(delta_t),
@@ -284,9 +288,12 @@ class ProgressBar(BaseProgress):
 
     def update(self, step=None):
         """Update the progress. """
-        self._timer.cancel()
-        self._timer = Timer(1.0, self.update)
-        self._timer.start()
+        with self._lock:
+            if self._closed:
+                return # a timer callback that fires while or after exiting
+            self._timer.cancel()
+            self._timer = Timer(1.0, self.update)
+            self._timer.start()
         if step is not None:
             self._step = step
         self._print_status()
